@@ -204,6 +204,8 @@ def one(prop, tagsub, tier='quick', seed=1):
                 e = d.get('env') or {}
                 print('  ', {k: v for k, v in d.items() if v not in ('', 0, -1, []) and k not in ('seq', 'sc', 'conn', 'env')},
                       ('id=%s %s code=%s pay=%s md=%s tmd=%s' % (e.get('id'), ''.join(str(e.get(x, '')) for x in 'hbstr'), e.get('code'), e.get('pay'), e.get('md'), e.get('tmd'))) if e else '')
+    if os.environ.get('VERIF_KEEP') != '1':
+        shutil.rmtree(work, ignore_errors=True)
     return 0
 
 
